@@ -350,6 +350,9 @@ func checkC13(c *Ctx) error {
 		}
 		judgeShadowUnits(c, du, dt, dl)
 	}
+	// "generated methods never collide with each other": also not when two containers (each with getters and must-getters)
+	// live in one package
+	cohabitPairs(c, lab, c.Pick(10, 200))
 	if len(runtimeAPI) == 0 {
 		c.Inconclusive("the runtime API was never observed by reflection")
 		return nil
